@@ -11,36 +11,47 @@ def save_leg(chk, tier, label="json-save", arch="json"):
     cfg = mp.write_cfg("mc_save%s.cfg" % arch, "SPECIFICATION Spec\nCONSTANT MaxMembers = %d\nINVARIANTS SpecRoundTrip Export\n" % (1 if quick else 3))
     r = vlib.tlc(mod, cfg=cfg, timeout=3000, xmx="6g")
     chk.add_tlc(mod, r, {"MaxMembers": 1 if quick else 3})
-    scen = r.printed("GEN")
     # documents longer than the writers' output buffers (2 KiB / 4 KiB steps)
     lcfg = mp.write_cfg("mc_savelong_%s.cfg" % arch, "SPECIFICATION Spec\nCONSTANTS\n  Lens = %s\n  EscChar = %d\nINVARIANT Export\n" % (
         "{2100}" if quick else "{2100, 4200, 8300}", 34 if arch == "json" else 60))
     rl = vlib.tlc("MC_SaveLong", cfg=lcfg, timeout=900)
     chk.add_tlc("MC_SaveLong (%s)" % arch, rl)
-    scen = scen + rl.printed("GEN")
-    rows = [{"id": "js%d" % i, "root": s["root"], "opt": s["opt"]} for i, s in enumerate(scen)]
-    sp = os.path.join(vlib.scratch(), "savejson.ndjson")
-    vlib.write_ndjson(sp, rows)
-    obs = vlib.run_resumable([mp.harness(256, arch), "save", sp], timeout=1800)
-    lines = []
-    for o in obs:
-        if "e" in o:
-            chk.fail("%s %s: %s" % (label, rows[o["run"]]["id"], o["e"]), {"scenario": rows[o["run"]], "observed": o})
-            continue
-        o["root"] = rows[o["run"]]["root"]
-        o["opt"] = rows[o["run"]]["opt"]
-        lines.append(json.dumps(o))
-    checked, bad = vlib.validate_traces(trace, lines)
-    byid = None
-    for b in bad:
-        if byid is None:
-            byid = {json.loads(l)["id"]: json.loads(l) for l in lines}
-        dev = b["why"][4:] if b["why"].startswith("dev:") else None
-        chk.fail("%s save: %s" % (arch.upper(), b["why"]), {"record": byid[b["id"]], "verdict": b}, dev=dev)
-    chk.add_cases(len(rows), distinct_keys=((arch + "save", json.dumps(x["root"]), json.dumps(x["opt"])) for x in rows), validated=checked)
-    if lines:
-        t = json.loads(lines[len(lines) // 2])
-        chk.sample({"leg": label, "script": t["root"], "opt": t["opt"], "memory_output": bytes(t["mem"]).decode("utf-8", "replace")[:200]})
+
+    def chunks():
+        for part in r.printed_chunks("GEN", 30000):          # streamed: bounded memory whatever MaxMembers is
+            yield part
+        yield rl.printed("GEN")
+
+    base = 0
+    sampled = False
+    for scen in chunks():
+        rows = [{"id": "js%d" % (base + i), "root": s["root"], "opt": s["opt"]} for i, s in enumerate(scen)]
+        base += len(rows)
+        sp = os.path.join(vlib.scratch(), "savejson.ndjson")
+        vlib.write_ndjson(sp, rows)
+        obs = vlib.run_resumable([mp.harness(256, arch), "save", sp], timeout=1800)
+        os.unlink(sp)
+        lines = []
+        for o in obs:
+            if "e" in o:
+                chk.fail("%s %s: %s" % (label, rows[o["run"]]["id"], o["e"]), {"scenario": rows[o["run"]], "observed": o})
+                continue
+            o["root"] = rows[o["run"]]["root"]
+            o["opt"] = rows[o["run"]]["opt"]
+            lines.append(json.dumps(o))
+        checked, bad = vlib.validate_traces(trace, lines)
+        byid = None
+        for b in bad:
+            if byid is None:
+                byid = {json.loads(l)["id"]: json.loads(l) for l in lines}
+            dev = b["why"][4:] if b["why"].startswith("dev:") else None
+            chk.fail("%s save: %s" % (arch.upper(), b["why"]), {"record": byid[b["id"]], "verdict": b}, dev=dev)
+        chk.add_cases(len(rows), distinct_keys=((arch + "save", json.dumps(x["root"]), json.dumps(x["opt"])) for x in rows), validated=checked)
+        if not sampled and lines:
+            t = json.loads(lines[len(lines) // 2])
+            chk.sample({"leg": label, "script": t["root"], "opt": t["opt"], "memory_output": bytes(t["mem"]).decode("utf-8", "replace")[:200]})
+            sampled = True
+        del rows, obs, lines
 
 
 def load_leg(chk, tier, mode, constants, invariants, media=("mem", "sstream", "short3"), label=None, arch="json"):
